@@ -4,7 +4,7 @@ META = dict(
     technique="bounded-exhaustive enumeration of bit-field formats x field values and of small integers/byte strings against an independent bit-string reference (no sampling)",
     text="Every bit-field format (composition of the total width into positive field widths) of total width <= 10 (12 in thorough) with every "
          "in-range value tuple, plus a masked out-of-range variant, is packed with packify / packifyInto (offsets 0-2 into a 0xAA buffer, "
-         "short and long buffers, explicit larger size) and unpacked with unpackify (boolean on/off, padding bits set and clear, both byte "
+         "short and long buffers, explicit larger size - for packifyInto sizes +1/+2 into 0xFF and 0x00 filled buffers in both byte orders) and unpacked with unpackify (boolean on/off, padding bits set and clear, both byte "
          "orders) and compared with a reference that works on '0'/'1' strings; wider formats up to 12 (16 in thorough) bits get a boundary-value family. "
          "bytify/unbytify, hexify/unhexify, hexize/unhexize, binize/unbinize and signExtend are enumerated completely over small domains "
          "against int.to_bytes / bytes.hex / format().",
@@ -255,6 +255,24 @@ def check_format(by, p, widths, full, cur):
                         bad(grp, vals, "packifyInto(0xAA*%d, %r, %r, offset=%d, reverse=%r) -> %r buffer %r expected %d %r"
                             % (buflen, str(fmt), list(vals), offset, reverse, n, buf, size, e),
                             fn="packifyInto", offset=offset, buflen=buflen, reverse=reverse, got=[n, buf], expected=[size, e])
+        # ---- packifyInto with an explicit size larger than the format needs: the whole window of `size` bytes is written
+        #      (pad bytes zeroed, little-endian = mirror of the window) exactly as packify(size=..., reverse=...) packs it,
+        #      stale bytes in the window do not survive, bytes outside it are untouched
+        for extra, fill, reverse in ((1, 0xFF, False), (1, 0xFF, True), (2, 0x00, True), (2, 0xFF, False)):
+            S = size + extra
+            buf = bytearray([fill] * (S + 2))
+            ok, n = call(by.packifyInto, buf, fmt, vals, size=S, offset=1, reverse=reverse)
+            e = bytearray([fill] * (S + 2))
+            e[1:1 + S] = ref_pack(widths, vals, size=S, reverse=reverse)
+            if not ok:
+                bad("packifyInto|raises", vals, "packifyInto raised " + n, fn="packifyInto", size=S, offset=1, buflen=S + 2, reverse=reverse, got=n)
+            elif buf != e or n != S:
+                inside = buf[1:1 + S] == e[1:1 + S] and len(buf) == len(e)
+                grp = "packifyInto|explicit-size-returns-wrong-size" if buf == e else (
+                    "packifyInto|explicit-size-disturbs-other-bytes" if inside else "packifyInto|explicit-size-window-differs-from-packify")
+                bad(grp, vals, "packifyInto(0x%02X*%d, %r, %r, size=%d, offset=1, reverse=%r) -> %r buffer %r expected %d %r (window = packify(size=%d, reverse=%r))"
+                    % (fill, S + 2, str(fmt), list(vals), S, reverse, n, buf, S, e, S, reverse),
+                    fn="packifyInto", size=S, offset=1, buflen=S + 2, fill=fill, reverse=reverse, got=[n, buf], expected=[S, e])
         if p.evaluations % 40009 == 1:
             p.sample(dict(fmt=fmt, fields=list(vals), packed=bytes(exp).hex(), unpacked=ref_unpack(widths, exp)))
     p.outcome("format: %d fields, %d pad bits" % (nf, pad))
